@@ -114,6 +114,22 @@ def build_rt():
     return d
 
 
+def lin_selftest():
+    """Compile and run the self-test of the linearizability checker (part of setup)."""
+    d = build_rt()
+    exe = os.path.join(d, "lin_selftest")
+    log = []
+    if not os.path.exists(exe):
+        rt = os.path.join(VERIF, "rt")
+        if not _run([CXX, "-std=gnu++17", "-O1", "-I" + rt, os.path.join(rt, "lin_selftest.cpp"), os.path.join(rt, "lin.cpp"),
+                     os.path.join(rt, "case.cpp"), "-o", exe], log):
+            raise RuntimeError("lin selftest build failed:\n" + "\n".join(log))
+    p = subprocess.run([exe], stdout=subprocess.PIPE, stderr=subprocess.STDOUT, text=True)
+    if p.returncode != 0:
+        raise RuntimeError("lin selftest failed:\n" + p.stdout)
+    return p.stdout.strip()
+
+
 def build_src():
     d = os.path.join(BUILD, "src-" + repo_hash())
     os.makedirs(d, exist_ok=True)
